@@ -207,14 +207,16 @@ NOT_APPLICABLE = {("C%02d" % i): NOT_BUILT for i in range(1, 20)}
 
 MANIFEST_TEXT = {
     "C02": {
-        "text": "Lean: C02_chain (in every accepted program each statement has a numeric address, the first non-ORG statement sits at 0 and every non-ORG statement "
-                "starts at its predecessor's address + size), C02_telescope, C02_org_address (only ORG presets an address), C02_image (image = concatenation "
-                "of the statements' bytes), C02_offset (if every statement emits as many bytes as its size and no ORG follows the first byte, the bytes of "
-                "statement i sit at offset address(i) - origin), C02_symbols (labels are bound to the listing address of their statement, EQU symbols to their "
-                "operand value), C02_duplicate_label (a label occurring twice => diagnostic); C02_Statement_false with kernel-checked witnesses "
-                "(LDA -100,X: size 2, 3 bytes; an ORG in mid-program is accepted).",
+        "text": 'Lean: C02_chain (in every accepted program each statement has a numeric address, the first non-ORG statement sits at 0 and every non-ORG statement sta'
+                "rts at its predecessor's address + size), C02_telescope, C02_org_address / C02_org_final / C02_org_symbol (only ORG presets an address: its resolved o"
+                "perand), C02_image (image = concatenation of the statements' bytes), C02_symbols (labels are bound to the listing address of their statement, EQU symb"
+                'ols to their operand value), C02_duplicate_label; NEW C02_bytes_eq_size (Props/C02Size): EVERY statement of EVERY accepted program emits exactly `size'
+                '` bytes - instructions of every addressing mode, register lists, data directives, RMB, FCC, the directives that emit nothing - under the one hypothesi'
+                's that FCC characters are below 256 (C02_bytes_eq_size_ascii: implied by ASCII input; C02_fcc_wide_counterexample shows it is needed), hence C02_image'
+                "_exists and C02_offset_full: with no ORG after statement k, statement i's bytes sit at offset address(i) - address(k) of the image, with NO size hypot"
+                'hesis left. C02_Statement_false only through an ORG in mid-program (finding B1).',
         "design_ref": "DESIGN.md section 5 C02, section 6 B",
-        "note": "known findings B1 and the size-mismatch classes A3/A4/A5/A7/A9/A11; 'byte count = size' is not a theorem (false), it is the oracle's job",
+        "note": "known finding B1 (a later ORG / code before ORG is accepted); 'byte count = size' is a theorem since fix 985348a",
         "technique": "Lean 4 proof (address fold induction, frame lemmas for the later passes, symbol-table lemmas) + differential correspondence + listing re-computation oracle",
     },
     "C03": {
@@ -312,47 +314,56 @@ MANIFEST_TEXT = {
         "technique": "Lean 4 proof (filter lemma + container round-trip theorems) + differential file_util runs + reference-reader oracle",
     },
     "C01": {
-        "text": "Lean: (i) table_matches_datasheet / map_covered — the instruction table REGENERATED from /repo on every run agrees cell by cell (operation, "
-                "addressing mode, size) with the datasheet opcode map, both directions, by kernel evaluation over all 150 rows; (ii) C01_partial — for every "
-                "non-pseudo row and every operand in the proved Region (inherent; immediates 8/16; direct; extended; [extended indirect]; all no-offset, "
-                "auto inc/dec and accumulator forms for X Y U S and their indirect variants; 5/8/16-bit constant offsets; all 100 TFR/EXG pairs; push/pull "
-                "lists) translate+emit yields bytes that the datasheet decoder reads back as exactly that operation and operand, with byte count = size, "
-                "for ALL operand values; (iii) C01_Statement_false and ten C01_finding_* theorems: the full statement is false on the model and "
-                "each excluded region has a kernel-checked witness; (iv) C01_text_partial / C01_text_rendered (Props/C01Text) — "
-                "the same from the OPERAND TEXT: for every non-pseudo row and every spelling family (decimal / $hex literals as immediates, direct, extended, "
-                "[indirect]; ,R ,R+ ,R++ ,-R ,--R and A,R B,R D,R for X Y U S with their [..] variants; decimal constant offsets of every width) the cascade "
-                "of create_from_str + translate + emit yields the bytes the datasheet decoder reads back (asmOne_eq_encodeText ties this to assembling the "
-                "one-line program); C01_text_16bit_row_offset_not_encoded proves the excluded region A3 in general. Symbols and expressions in operands are "
-                "tied by the statement matrix rather than proved from text.",
+        "text": 'Lean: (i) table_matches_datasheet / map_covered - the instruction table REGENERATED from /repo on every run agrees cell by cell (operation, addressing'
+                ' mode, size) with the datasheet opcode map, both directions, by kernel evaluation over all 150 rows; (ii) Encodes r o x = translate, then fit_operand_'
+                'width (fitWidth), then emit: the bytes are read back by the datasheet decoder as exactly that operation and operand, byte count = size; C01_partial pr'
+                'oves it for every non-pseudo row and the whole Region, for ALL operand values and ANY spelling hint: inherent; 8-/16-bit immediates incl. negatives; d'
+                'irect; extended; [extended indirect]; no-offset, auto inc/dec, accumulator forms for X Y U S and their indirect variants; 5/8/16-bit constant offsets '
+                'of either sign, direct and indirect, on every row; all 100 TFR/EXG pairs; push/pull lists; C01_partial_emitted lifts it to the fixAll step of any prog'
+                'ram (fixOne is the identity on label-free operands); C01_full_except_S: EVERY operand of the full-strength relation Intends is encoded unless it is a '
+                'push/pull list naming S - the gap to C01_Statement is exactly finding A10 (C01_Statement_false through PSHU S); the former findings are now *_fixed th'
+                'eorems on the same witnesses (LDD 100,X = EC 88 64; LDA #256 rejected; LDA [$10] = A6 9F 00 10 ...); (iii) C01_text_partial / C01_text_rendered (Props'
+                '/C01Text): the same from the OPERAND TEXT for every spelling family (decimal / $hex literals as immediates, direct, extended, <n, >n, >$hh, [indirect]'
+                '; ,R ,R+ ,R++ ,-R ,--R, A,R B,R D,R for X Y U S with [..] variants; decimal offsets of every width and sign) plus rejection theorems for out-of-range '
+                'immediates and forced-direct values. Symbols and expressions in operands are tied by the statement matrix rather than proved from text.',
         "design_ref": "DESIGN.md section 5 C01, section 6 A",
-        "note": "known findings A3-A11, A13, C3 (regions in known_findings.json); trusted: Spec/MC6809*.lean, Lean kernel, correspondence (statement matrix complete in the thorough tier, sampled in quick)",
+        "note": 'known findings A9 (numeric n,PCR), A10 (register detection by substring), C3 (label as non-PCR index offset rejected); trusted: Spec/MC6809*.lean, Lean kernel, correspondence (statement matrix complete in the thorough tier, sampled in quick)',
         "technique": "Lean 4 proof (kernel-evaluated table check + per-addressing-mode encode/decode theorems for all values) + differential correspondence + datasheet-decoder oracle",
     },
     "C12": {
-        "text": "Lean: C12_partial (soundness over the proved Region: accepted => decodes as one complete instruction of that mnemonic consuming all bytes, "
-                "count = size), C12_rejected, C12_Statement_false and eight C12_finding_* witnesses of accepted-but-malformed statements. Arbitrary operand "
-                "text is covered by the correspondence (model = code on matrix, random programs, mutations, tricky strings) plus the decoder oracle on "
-                "everything the implementation accepts.",
+        "text": 'Lean: SoundEnc = accepted by translate AND fit_operand_width => the bytes of the fitted statement decode as one complete instruction of that mnemonic '
+                'consuming all bytes, count = size. C12_partial (soundness over the whole Region of C01, any spelling), C12_fitted_size (for EVERY non-pseudo non-speci'
+                "al statement with a numeric field that passes fitWidth the bytes number exactly pkg.size - the general form of 'no truncated or over-long instruction'"
+                "), C12_imm8/imm16/direct_out_of_range_rejected and C12_rejected_fit (values that cannot be represented in the operand's width are diagnostics), C12_re"
+                'jected; the former C12_finding_* are *_fixed; remaining witnesses C12_finding_push_S (A10) and C12_finding_numeric_pcr (A9). C12_Statement is stated o'
+                'ver the operands the front end builds (C12_unreachable_operand shows the all-records version fails only on records no source produces); it is neither '
+                'proved nor refuted in general - arbitrary operand text is covered by the correspondence (model = code on matrix, random programs, mutations, tricky st'
+                'rings) plus the decoder oracle on everything the implementation accepts.',
         "design_ref": "DESIGN.md section 5 C12, section 6 A, H",
-        "note": "known findings as for C01; the grammar half (acceptance implies grammar-valid) is not proved: register detection by substring (A10) makes it false",
+        "note": 'known findings A9, A10; the grammar half (acceptance implies grammar-valid) is not proved: register detection by substring (A10) makes it false',
         "technique": "Lean 4 proof (soundness dual of C01 on the proved region, refutation witnesses) + differential correspondence + datasheet-decoder oracle on accepted statements",
     },
     "C04": {
-        "text": "Lean: resolve_add/sub/mul/div (numeric x numeric expressions evaluate to the arithmetic value, negative results flagged, division by zero and "
-                "results above 65535 are errors), resolve_symbol_left/right and resolve_depends_only_on_lookup (EQU symbols are replaced by their table value: "
-                "definition order cannot matter), addrOffset_* (label +- constant = address +- constant at 16 bits), C04_partial, and C04_Statement_false with "
-                "three findings. Width-per-position is NOT proved: it is where findings A3/A7/A8/A9/A13/C2/C4 live; those positions are checked by the oracle.",
+        "text": 'Lean: resolve_add/sub/mul/div (numeric x numeric expressions evaluate to the arithmetic value; the result is an extended address when it exceeds 255 -'
+                ' resMode, fix 03f5b0d; division by zero and results above 65535 are errors), resolve_symbol_left/right and resolve_depends_only_on_lookup (EQU symbols'
+                " are replaced by their table value: definition order cannot matter), addrOffset_* (label +- constant and label +- label from the ADDRESSES, '-' reduce"
+                "d mod 65536, overflow and division by zero are diagnostics), C04_partial; the width per operand position is now C01's / C12's theorem (fit_operand_wid"
+                'th) instead of a finding; remaining findings with kernel-checked witnesses: C04_finding_negative_result_loses_sign, C04_finding_negative_equ (signs), '
+                'C04_finding_equ_expression (C4), C04_finding_label_index_offset (C3).',
         "design_ref": "DESIGN.md section 5 C04, section 6 C",
-        "note": "known findings A3, A7, A8, A9, A13, C2, C3, C4; trusted: Lean kernel, correspondence, decoder oracle",
+        "note": 'known findings A9, A13 (negative results), C3, C4; trusted: Lean kernel, correspondence, decoder oracle',
         "technique": "Lean 4 proof (expression evaluator and address-offset lemmas) + differential correspondence + arithmetic oracle on decoded operand values",
     },
     "C05": {
-        "text": "Lean: C05_partial — FCB/FDB single values and comma lists of literals emit exactly their bytes (big-endian words), RMB n emits n zero bytes for "
-                "every n, FCC emits exactly the characters of the parsed string, EQU/ORG/SETDP/NAM/END/INCLUDE emit nothing; proved from operand text for "
-                "decimal literals; C05_not_full* and twenty C05_finding_* witnesses for the excluded regions (negatives, single values above the width, symbols, "
-                "FCC reconstruction). C05_fixed_FCB_list_wide records the repaired list-element range check.",
+        "text": "Lean: C05_full proves C05_Statement at full strength on the model: a single FCB / FDB value emits its two's complement at one / two bytes (through fit"
+                '_operand_width) for every in-range value incl. negatives, out-of-range values are rejected (C05_FCB/FDB_single_rejected), lists likewise element by el'
+                'ement (C05_FCB/FDB_signed_list(_rejected)), RMB n emits n zero bytes for every n and a negative or non-numeric count is rejected, FCC emits exactly th'
+                'e characters of the parsed string, EQU/SETDP/NAM/END/INCLUDE emit nothing, ORG takes a non-negative number; symbols: C05_FCB/FDB/RMB/ORG_symbol (an EQ'
+                'U symbol evaluates), C05_undefined_symbol; whole-program kernel-checked witnesses through assemble (C05_program_FDB_label, _RMB_symbol, _ORG_symbol, _'
+                'FCB_label, _negatives, _rejected). Remaining findings with witnesses: C05_finding_list_symbol (a symbol inside a LIST is rejected), the FCC reconstruc'
+                'tion from two regex groups (D3: C05_FCC holds for the parsed string, the line scanner decides what that string is).',
         "design_ref": "DESIGN.md section 5 C05, section 6 D",
-        "note": "known findings C2, D1, D2, D3, D4; trusted: Lean kernel, correspondence",
+        "note": 'known findings C2 (lists only), D3; trusted: Lean kernel, correspondence',
         "technique": "Lean 4 proof (data-directive emission lemmas by induction over value lists / string / count) + differential correspondence + byte-exact oracle",
     },
     "C07": {
